@@ -11,9 +11,9 @@ import core
 from core import f2b, b2f
 
 PROP = "C10"
-COUNT = {"quick": 110, "thorough": 1100, "search": 900}
+COUNT = {"quick": 150, "thorough": 1200, "search": 700}
 PARALLEL = True
-EXHAUSTIVE = {"quick": False, "thorough": True}   # thorough sweeps every n in 1..64 in every symmetry form
+EXHAUSTIVE = {"quick": False, "thorough": True}   # thorough: every n in 1..64 in every symmetry form; quick (and search) still sweep EVERY n in 1..64 once on tiny lists
 # symmetry given as a number that is not a Python int: float(n), np.int64(n), np.float64(n) (accepted since fix: f9fba9c, D24)
 FLOAT_FORMS = True
 TOL = 1e-9          # absolute, poses (matrix entries) and positions
@@ -24,11 +24,14 @@ FIELDS = ["score", "geom1", "geom2", "subtomo_id", "tomo_id", "object_id", "subt
 IX = {f: i for i, f in enumerate(FIELDS)}
 OTHER = ["score", "geom1", "tomo_id", "object_id", "subtomo_mean", "geom3", "geom4", "class"]
 
-RULE = ("particle lists of N in 1..100 particles (unique positive subtomo_ids in random row order, arbitrary zxz Euler angles incl. "
-        "theta in {0,180} and multiples of 90, integer or fractional x,y,z, shifts incl. exact .5 ties) x n-fold cyclic symmetry given as "
-        "'Cn' / 'cn' / int n / float(n) / np.int64(n) / np.float64(n) (n in 1..64; quick: {1..12} u {7,11,13,14,16,25,64} first, thorough: every n in 1..64 in every form) x offset s "
-        "(generic, on the z axis, zero, in the xy plane, large); non-trivial = N>=2 and n>=2 and s off the axis and at least one parent with "
-        "theta not a multiple of 180; distinct = distinct (symmetry, s, rows) content")
+RULE = ("particle lists of N in 1..100 particles (subtomo_ids unique in random row order, or REPEATED: per-tomogram numbering = the same ids in two tomograms, one id "
+        "twice, all equal; arbitrary zxz Euler angles incl. theta in {0,180} and multiples of 90, integer or fractional x,y,z incl. parents next to the origin planes "
+        "(subunits below -0.5), shifts incl. exact .5 ties and 0.49999999999999994) x n-fold cyclic symmetry given as "
+        "'Cn' / 'cn' / 'C n' / 'C0n' / 'c  00n' / int n / float(n) / np.int64(n) / np.float64(n) (EVERY n in 1..64 in every tier: quick sweeps all 64 once on lists of 1..3 "
+        "parents, thorough every n in every form) x offset s (generic, on the z axis, zero, in the xy plane, large) handed over as ndarray / list / tuple; "
+        "a share of cases are SESSIONS: 2-3 calls in one process on the same Motl object with the offset in the same ndarray rewritten in place, the same n repeated after an "
+        "offset of non-zero azimuth, every call judged alike and the caller-owned frame and offset compared before/after; "
+        "non-trivial = N>=2 and n>=2 and s off the axis and at least one parent with theta not a multiple of 180; distinct = distinct (calls, rows) content")
 ASSUMPTIONS = [
     "scipy Rotation.from_euler('zxz', degrees=True) is the matrix Rz(psi)Rx(theta)Rz(phi); `*` is matrix product; apply is matrix-vector product "
     "(probed every run against the harness's own matrices)",
@@ -36,13 +39,16 @@ ASSUMPTIONS = [
     "output orientation is therefore compared as a matrix (tol 1e-9), not as three angles",
     "numpy float64 cos/sin/arctan2/sqrt and the polar form rho*(cos,sin)(atan2(sy,sx)+phi_k) agree with the exact rotation Rz(phi_k)s to 1e-9 "
     "(the model applies the matrix; compared on every case)",
-    "decimal.Decimal(x).to_integral_value(ROUND_HALF_UP) = round half away from zero = the model's floor formula (exact on the generated grid; "
-    "coordinates whose pre-rounding value lies within 1e-6 of k+1/2 after a non-zero real offset are compared on the complete position only)",
-    "pandas: concat keeps rows, sort_values(by='subtomo_id') orders parents by id (unique ids: no tie), positional assignment of np.tile'd arrays",
-    "parent subtomo_ids are unique (DESIGN section 6, interpretation decisions): 'records its parent' presupposes it",
+    "decimal.Decimal(x).to_integral_value(ROUND_HALF_UP) on a float x = rounding of the EXACT binary value half away from zero = Lean ratRound on that value (probed every "
+    "run incl. ties and 0.49999999999999994; compared exactly on every case with zero offset; coordinates whose pre-rounding value lies within 1e-6 of k+1/2 after a "
+    "non-zero real offset are compared on the complete position only)",
+    "pandas/numpy: argsort(kind='stable') orders parents by id keeping the row order of equal ids, iloc[np.repeat(order, n)] repeats each parent n times, np.tile'd tables are "
+    "assigned by position (compared on every case, incl. repeated ids)",
+    "strings: only ASCII digits are generated (Python's \\d and int() also accept other Unicode decimal digits; not modelled)",
 ]
 TRUSTED = ["harness zxz matrix (props/c10.py _zxz) used to read the implementation's output orientation",
-           "Float cos/sin of the Lean runtime (libm) inside the driver's `trig`; tolerance 1e-9"]
+           "Float cos/sin of the Lean runtime (libm) inside the driver's `trig`; tolerance 1e-9",
+           "driver ratOfFloat (exact rational value of a binary64) feeding the proved ratRound"]
 
 REL = "cryocat/cryomotl.py"
 FN = "Motl.split_in_asymmetric_subunits"
@@ -50,7 +56,8 @@ FN = "Motl.split_in_asymmetric_subunits"
 DOC = dict(
     fullTurnDeg=360, stepExpr="360/nfold", nSubunitsExpr="nfold", phiExpr="np.arange(n_subunits)*inplane_step", phiSlot=0,
     parentSrc="subtomo_id", parentDst="geom5", indexDst="geom2", indexStart=1, indexStopExpr="n_subunits+1",
-    sortKey="subtomo_id", idDst="subtomo_id", idStart=1, idStopExpr="len(new_motl_df)+1",
+    sortKey="subtomo_id", sortKind="stable", expandExpr="self.df.iloc[np.repeat(parent_order,n_subunits)].copy()",
+    idDst="subtomo_id", idStart=1, idStopExpr="len(new_motl_df)+1", signature=["self", "symmetry", "xyz_shift"],
     eulerSeqs=["zxz", "zxz", "zxz"], eulerDegrees=[True, True, True], parentAngles=["phi", "theta", "psi"],
     composeLeft="rotations", composeRight="rot.from_euler", shiftFields=["shift_x", "shift_y", "shift_z"],
     shiftRhs="new_motl_df.loc[:,['shift_x','shift_y','shift_z']]+rotations.apply(center_shift)",
@@ -66,6 +73,187 @@ DOC = dict(
 
 
 # ------------------------------------------------------------------ translator
+# Local variables are renamed to ROLE names by the ORDER OF THEIR FIRST BINDING before anything is extracted, so the
+# anchors see structure (operators, constants, columns, order of operations, call keywords), not spelling: renaming a
+# local leaves every anchor unchanged, while an added / removed / reordered statement shows in `body` (whole-function
+# dump, also of the branches the correspondence run never executes) and in the anchors behind it.
+ROLES = ["nfold", "s_type", "inplane_step", "n_subunits", "phi_angles", "new_angles", "in_plane_offset", "starting_vector", "rho", "the",
+         "rot_rho", "rep_the", "rep_z", "center_shift", "parent_order", "new_motl_df", "euler_angles", "rotations", "new_rotations", "new_motl"]
+ROLES_UPD = ["round_and_recenter"]
+ROLES_RR = ["new_row", "shifted_x", "shifted_y", "shifted_z"]
+
+
+def _bound_names(fn):
+    """local names of a function in the order of their first binding (source order); parameters excluded"""
+    a = fn.args
+    params = {x.arg for x in a.args + a.kwonlyargs + a.posonlyargs} | ({a.vararg.arg} if a.vararg else set()) | ({a.kwarg.arg} if a.kwarg else set())
+    order = []
+
+    def add(n):
+        if n not in params and n not in order:
+            order.append(n)
+
+    def tgt(t):
+        if isinstance(t, ast.Name): add(t.id)
+        elif isinstance(t, (ast.Tuple, ast.List)):
+            for e in t.elts: tgt(e)
+        elif isinstance(t, ast.Starred): tgt(t.value)
+
+    def walk(stmts):
+        for st in stmts:
+            if isinstance(st, (ast.FunctionDef, ast.AsyncFunctionDef, ast.ClassDef)):
+                add(st.name); continue
+            for n in ast.walk(st):
+                if isinstance(n, ast.NamedExpr): tgt(n.target)
+            if isinstance(st, ast.Assign):
+                for t in st.targets: tgt(t)
+            elif isinstance(st, (ast.AugAssign, ast.AnnAssign)): tgt(st.target)
+            elif isinstance(st, (ast.For, ast.AsyncFor)):
+                tgt(st.target); walk(st.body); walk(st.orelse)
+            elif isinstance(st, (ast.While, ast.If)):
+                walk(st.body); walk(st.orelse)
+            elif isinstance(st, (ast.With, ast.AsyncWith)):
+                for it in st.items:
+                    if it.optional_vars is not None: tgt(it.optional_vars)
+                walk(st.body)
+            elif isinstance(st, ast.Try):
+                walk(st.body)
+                for h in st.handlers:
+                    if h.name: add(h.name)
+                    walk(h.body)
+                walk(st.orelse); walk(st.finalbody)
+    walk(fn.body)
+    return order
+
+
+def _alpha(fn, roles, inner=None):
+    """copy of the function with its i-th bound local renamed to roles[i] (surplus locals: `_local<i>`); `inner` maps the role name of a
+    nested function to the roles of ITS locals. Nested functions see the outer renaming too (closures)."""
+    import copy
+    fn = copy.deepcopy(fn)
+    names = _bound_names(fn)
+    ren = {n: (roles[i] if i < len(roles) else f"_local{i}") for i, n in enumerate(names)}
+
+    class R(ast.NodeTransformer):
+        def visit_Name(self, n):
+            if n.id in ren: n.id = ren[n.id]
+            return n
+
+        def visit_FunctionDef(self, n):
+            if n is not fn and n.name in ren: n.name = ren[n.name]
+            self.generic_visit(n)
+            return n
+    R().visit(fn)
+    if inner:
+        for i, st in enumerate(fn.body):
+            if isinstance(st, ast.FunctionDef) and st.name in inner:
+                fn.body[i] = _alpha(st, inner[st.name])
+    return fn
+
+
+def _dump(fn):
+    """normalised dump of a whole function body: one entry per source line of the unparsed, alpha-renamed, docstring-free function
+    (statement kinds + expressions; `>` marks one level of nesting)"""
+    import copy
+    fn = copy.deepcopy(fn)
+
+    def strip(f):
+        if f.body and isinstance(f.body[0], ast.Expr) and isinstance(f.body[0].value, ast.Constant) and isinstance(f.body[0].value.value, str):
+            f.body = f.body[1:] or [ast.Pass()]
+        for st in f.body:
+            if isinstance(st, ast.FunctionDef): strip(st)
+    strip(fn)
+    for n in ast.walk(fn):   # the wording of error / warning messages is not structure
+        if isinstance(n, ast.Call) and (core.norm_expr(n.func).endswith("Error") or core.norm_expr(n.func).endswith("warn")):
+            n.args = [ast.Constant("<msg>") if isinstance(x, ast.Constant) and isinstance(x.value, str) else x for x in n.args]
+    out = []
+    for line in ast.unparse(fn).splitlines():
+        body = line.lstrip(" ")
+        if not body:
+            continue
+        depth = (len(line) - len(body)) // 4
+        out.append(">" * depth + body.replace(" ", ""))
+    return out
+
+
+BODY_DOC = [
+    "defsplit_in_asymmetric_subunits(self,symmetry,xyz_shift):",
+    ">ifisinstance(symmetry,str):",
+    ">>nfold=int(re.findall('\\\\d+',symmetry)[-1])",
+    ">>ifsymmetry.lower().startswith('c'):",
+    ">>>s_type=1",
+    ">>elifsymmetry.lower().startswith('d'):",
+    ">>>s_type=2",
+    ">>else:",
+    ">>>ValueError('<msg>')",
+    ">elifisinstance(symmetry,(int,float,np.integer,np.floating)):",
+    ">>s_type=1",
+    ">>nfold=int(symmetry)",
+    ">else:",
+    ">>ValueError('<msg>')",
+    ">inplane_step=360/nfold",
+    ">ifs_type==1:",
+    ">>n_subunits=nfold",
+    ">>phi_angles=np.arange(n_subunits)*inplane_step",
+    ">>new_angles=np.zeros((n_subunits,3))",
+    ">>new_angles[:,0]=phi_angles",
+    ">elifs_type==2:",
+    ">>n_subunits=nfold*2",
+    ">>in_plane_offset=int(inplane_step/2)",
+    ">>new_angles=np.zeros((n_subunits,3))",
+    ">>new_angles[0::2,0]=np.arange(0,360,int(inplane_step))",
+    ">>new_angles[1::2,0]=np.arange(0+in_plane_offset,360+in_plane_offset,int(inplane_step))",
+    ">>new_angles[1::2,1]=180",
+    ">>phi_angles=new_angles[:,0].copy()",
+    ">phi_angles=phi_angles.reshape(n_subunits)",
+    ">starting_vector=np.array(xyz_shift)",
+    ">rho=np.sqrt(starting_vector[0]**2+starting_vector[1]**2)",
+    ">the=np.arctan2(starting_vector[1],starting_vector[0])",
+    ">rot_rho=np.full((n_subunits,),rho)",
+    ">rep_the=np.full((n_subunits,),the)+np.deg2rad(phi_angles)",
+    ">rep_z=np.full((n_subunits,),starting_vector[2])",
+    ">ifs_type==2:",
+    ">>rep_z[1::2]*=-1",
+    ">center_shift=np.zeros([rot_rho.shape[0],3])",
+    ">center_shift[:,0]=rot_rho*np.cos(rep_the)",
+    ">center_shift[:,1]=rot_rho*np.sin(rep_the)",
+    ">center_shift[:,2]=rep_z",
+    ">parent_order=np.argsort(self.df['subtomo_id'].to_numpy(),kind='stable')",
+    ">new_motl_df=self.df.iloc[np.repeat(parent_order,n_subunits)].copy()",
+    ">new_motl_df['geom5']=new_motl_df['subtomo_id']",
+    ">new_motl_df['geom2']=np.tile(np.arange(1,n_subunits+1).reshape(n_subunits,1),(len(self.df),1))",
+    ">euler_angles=new_motl_df[['phi','theta','psi']]",
+    ">rotations=rot.from_euler(seq='zxz',angles=euler_angles,degrees=True)",
+    ">center_shift=np.tile(center_shift,(len(self.df),1))",
+    ">new_angles=np.tile(new_angles,(len(self.df),1))",
+    ">new_motl_df.loc[:,['shift_x','shift_y','shift_z']]=new_motl_df.loc[:,['shift_x','shift_y','shift_z']]+rotations.apply(center_shift)",
+    ">new_rotations=rotations*rot.from_euler(seq='zxz',angles=new_angles,degrees=True)",
+    ">new_motl_df.loc[:,['phi','theta','psi']]=new_rotations.as_euler(seq='zxz',degrees=True)",
+    ">new_motl_df['subtomo_id']=np.arange(1,len(new_motl_df)+1)",
+    ">new_motl=Motl(new_motl_df)",
+    ">new_motl.update_coordinates()",
+    ">new_motl.df.reset_index(inplace=True,drop=True)",
+    ">returnnew_motl",
+]
+UPD_DOC = [
+    "defupdate_coordinates(self):",
+    ">defround_and_recenter(row):",
+    ">>new_row=row.copy()",
+    ">>shifted_x=row['x']+row['shift_x']",
+    ">>shifted_y=row['y']+row['shift_y']",
+    ">>shifted_z=row['z']+row['shift_z']",
+    ">>new_row['x']=float(decimal.Decimal(shifted_x).to_integral_value(rounding=decimal.ROUND_HALF_UP))",
+    ">>new_row['y']=float(decimal.Decimal(shifted_y).to_integral_value(rounding=decimal.ROUND_HALF_UP))",
+    ">>new_row['z']=float(decimal.Decimal(shifted_z).to_integral_value(rounding=decimal.ROUND_HALF_UP))",
+    ">>new_row['shift_x']=shifted_x-new_row['x']",
+    ">>new_row['shift_y']=shifted_y-new_row['y']",
+    ">>new_row['shift_z']=shifted_z-new_row['z']",
+    ">>returnnew_row",
+    ">self.df=self.df.apply(round_and_recenter,axis=1)",
+    ">warnings.warn('<msg>')",
+]
+
+
 def _assigns(fn):
     """all simple assignments of a function in source order: (target text, value node, enclosing-if test text or None)"""
     out = []
@@ -89,20 +277,20 @@ def _assigns(fn):
 
 def translate(src):
     A = core.AnchorMissing
+    cache = {}
 
     def fn():
-        return src.find(REL, FN)
+        if "fn" not in cache:
+            cache["fn"] = _alpha(src.find(REL, FN), ROLES)
+        return cache["fn"]
+
+    def upd_fn():
+        if "upd" not in cache:
+            cache["upd"] = _alpha(src.find(REL, "Motl.update_coordinates"), ROLES_UPD, {"round_and_recenter": ROLES_RR})
+        return cache["upd"]
 
     def assigns():
         return _assigns(fn())
-
-    def one(target, cond=None, nth=0):
-        def f():
-            hits = [(v, c) for (t, v, c) in assigns() if t == target and (cond is None or c == cond)]
-            if len(hits) <= nth:
-                raise A(f"{FN}: assignment to {target}" + (f" under `{cond}`" if cond else ""))
-            return hits[nth][0]
-        return f
 
     def only(target, cond=None):
         """the unique assignment to `target` (under cond); several different ones are not guessed between"""
@@ -116,18 +304,46 @@ def translate(src):
     def text(getter):
         return lambda: core.norm_expr(getter())
 
+    G = {}
+
+    def put(keys, name, getter):
+        """anchor -> G[keys]; a MISSING anchor falls back to the documented value (the model keeps its documented behaviour; the
+        anchor itself is recorded as broken and `anchors_ok` fails) — never to a value that would silently change the model"""
+        v = src.anchor(name, getter)
+        if isinstance(keys, str):
+            G[keys] = v if v is not None else DOC[keys]
+        else:
+            for i, k in enumerate(keys):
+                G[k] = v[i] if v is not None else DOC[k]
+
+    def whole(doc, getter, label):
+        def f():
+            d = _dump(getter())
+            if d != doc:
+                k = next((i for i, (x, y) in enumerate(zip(d, doc)) if x != y), min(len(d), len(doc)))
+                raise A(f"{label}: normalised body differs from the documented one at entry {k}: found {d[k] if k < len(d) else '<end>'!r}, "
+                        f"documented {doc[k] if k < len(doc) else '<end>'!r}")
+            return d
+        return f
+    # whole-body dumps: the Lean side compares the text actually found (also when it differs) with the documented literal
+    for key, doc, getter, label in (("body", BODY_DOC, fn, FN), ("updBody", UPD_DOC, upd_fn, "Motl.update_coordinates")):
+        v = src.anchor(f"whole body of {label} (alpha-renamed locals)", whole(doc, getter, label))
+        if v is None:
+            try:
+                v = _dump(getter())
+            except Exception:
+                v = []
+        G[key] = v
+
     def step():
         v = only("inplane_step")()
         if not (isinstance(v, ast.BinOp) and isinstance(v.op, ast.Div) and isinstance(v.left, ast.Constant) and isinstance(v.left.value, int)):
             raise A(f"{FN}: inplane_step = <int> / nfold")
         return [int(v.left.value), core.norm_expr(v)]
-
-    G = {}
-    st = src.anchor("inplane_step=360/nfold", step)
-    G["fullTurnDeg"], G["stepExpr"] = (st if st else (0, ""))
+    put(["fullTurnDeg", "stepExpr"], "inplane_step=360/nfold", step)
     cyc = "s_type==1"   # the cyclic branch; `cyclicTypeCode` (below) ties the 1 to what the symmetry parser assigns
-    G["nSubunitsExpr"] = src.anchor("cyclic:n_subunits", text(only("n_subunits", cyc))) or ""
-    G["phiExpr"] = src.anchor("cyclic:phi_angles", text(only("phi_angles", cyc))) or ""
+    put("nSubunitsExpr", "cyclic:n_subunits", text(only("n_subunits", cyc)))
+    put("phiExpr", "cyclic:phi_angles", text(only("phi_angles", cyc)))
 
     def phislot():
         hits = [(t, v) for (t, v, c) in assigns() if c == cyc and t.startswith("new_angles[") and core.norm_expr(v) == "phi_angles"]
@@ -137,31 +353,38 @@ def translate(src):
         if not (t.startswith("new_angles[:,") and t.endswith("]")):
             raise A(f"{FN}: slot of {t}")
         return int(t[len("new_angles[:,"):-1])
-    ps = src.anchor("cyclic:new_angles[:,0]=phi_angles", phislot)
-    G["phiSlot"] = ps if ps is not None else 99
+    put("phiSlot", "cyclic:new_angles[:,0]=phi_angles", phislot)
 
     def parent():
         v = only("new_motl_df['geom5']")()
         t = core.norm_expr(v)
         if not (t.startswith("new_motl_df['") and t.endswith("']")):
             raise A(f"{FN}: new_motl_df['geom5'] = new_motl_df[<field>]")
-        return t[len("new_motl_df['"):-2]
-    G["parentSrc"] = src.anchor("geom5=parent subtomo_id", parent) or ""
-    G["parentDst"] = "geom5" if G["parentSrc"] else ""
+        return [t[len("new_motl_df['"):-2], "geom5"]
+    put(["parentSrc", "parentDst"], "geom5=parent subtomo_id", parent)
 
     def call_of(node, name):
         return isinstance(node, ast.Call) and core.norm_expr(node.func).endswith(name)
 
-    def sortkey():
-        hits = [v for (t, v, c) in assigns() if t == "new_motl_df" and call_of(v, ".sort_values")]
+    def order():
+        v = only("parent_order")()
+        if not (call_of(v, "np.argsort") and len(v.args) == 1):
+            raise A(f"{FN}: parent_order = np.argsort(self.df[<field>].to_numpy(), kind=...)")
+        kw = {k.arg: k.value for k in v.keywords}
+        if set(kw) != {"kind"}:
+            raise A(f"{FN}: np.argsort(..., kind=<literal>) and no other keyword (found {sorted(map(str, kw))})")
+        a = core.norm_expr(v.args[0])
+        if not (a.startswith("self.df['") and a.endswith("'].to_numpy()")):
+            raise A(f"{FN}: argsort over self.df[<field>].to_numpy()")
+        return [a[len("self.df['"):-len("'].to_numpy()")], str(src.literal(kw["kind"]))]
+    put(["sortKey", "sortKind"], "parent_order=argsort(ids,kind='stable')", order)
+
+    def expand_rows():
+        hits = [core.norm_expr(v) for (t, v, c) in assigns() if t == "new_motl_df"]
         if len(hits) != 1:
-            raise A(f"{FN}: new_motl_df = new_motl_df.sort_values(by=...)")
-        kw = {k.arg: k.value for k in hits[0].keywords}
-        by = kw.get("by", hits[0].args[0] if hits[0].args else None)
-        if by is None or any(k in kw for k in ("ascending", "key")):
-            raise A(f"{FN}: sort_values(by=<field>) without ascending/key")
-        return src.literal(by)
-    G["sortKey"] = src.anchor("sort_values(by='subtomo_id')", sortkey) or ""
+            raise A(f"{FN}: exactly one assignment to the expanded frame (found {len(hits)}): no re-sorting / re-indexing after the expansion")
+        return hits[0]
+    put("expandExpr", "new_motl_df=self.df.iloc[np.repeat(parent_order,n)].copy()", expand_rows)
 
     def arange_args(node, what):
         # first np.arange(...) call inside node
@@ -178,19 +401,15 @@ def translate(src):
         t = core.norm_expr(v)
         if not (t.startswith("np.tile(") and t.endswith(",(len(self.df),1))")):
             raise A(f"{FN}: geom2 = np.tile(<per-parent indices>, (len(self.df), 1))")
-        return a
-    ia = src.anchor("geom2=tile(arange(1,n+1))", index)
-    G["indexStart"], G["indexStopExpr"] = ia if ia else (0, "")
-    G["indexDst"] = "geom2" if ia else ""
+        return a + ["geom2"]
+    put(["indexStart", "indexStopExpr", "indexDst"], "geom2=tile(arange(1,n+1))", index)
 
     def ids():
         v = only("new_motl_df['subtomo_id']")()
         if not call_of(v, "np.arange"):
             raise A(f"{FN}: subtomo_id = np.arange(...)")
-        return arange_args(v, "subtomo_id")
-    ida = src.anchor("subtomo_id=arange(1,len+1)", ids)
-    G["idStart"], G["idStopExpr"] = ida if ida else (0, "")
-    G["idDst"] = "subtomo_id" if ida else ""
+        return arange_args(v, "subtomo_id") + ["subtomo_id"]
+    put(["idStart", "idStopExpr", "idDst"], "subtomo_id=arange(1,len+1)", ids)
 
     def eulers():
         seqs, degs = [], []
@@ -203,8 +422,7 @@ def translate(src):
         if len(seqs) != 3:
             raise A(f"{FN}: two from_euler calls and one as_euler call, found {len(seqs)}")
         return [seqs, degs]
-    eu = src.anchor("from_euler/as_euler seq='zxz' degrees=True", eulers)
-    G["eulerSeqs"], G["eulerDegrees"] = eu if eu else ([], [])
+    put(["eulerSeqs", "eulerDegrees"], "from_euler/as_euler seq='zxz' degrees=True", eulers)
 
     def pangles():
         v = only("euler_angles")()
@@ -212,7 +430,7 @@ def translate(src):
         if not (t.startswith("new_motl_df[[") and t.endswith("]]")):
             raise A(f"{FN}: euler_angles = new_motl_df[[...]]")
         return src.literal(v.slice)
-    G["parentAngles"] = src.anchor("euler_angles=[phi,theta,psi]", pangles) or []
+    put("parentAngles", "euler_angles=[phi,theta,psi]", pangles)
 
     def compose():
         v = only("new_rotations")()
@@ -225,8 +443,7 @@ def translate(src):
         if rt != "rot.from_euler(seq='zxz',angles=euler_angles,degrees=True)":
             raise A(f"{FN}: rotations = rot.from_euler(seq='zxz', angles=euler_angles, degrees=True)")
         return [core.norm_expr(v.left), core.norm_expr(v.right.func)]
-    co = src.anchor("new_rotations=rotations*from_euler(new_angles)", compose)
-    G["composeLeft"], G["composeRight"] = co if co else ("", "")
+    put(["composeLeft", "composeRight"], "new_rotations=rotations*from_euler(new_angles)", compose)
 
     def shift():
         hits = [(t, v) for (t, v, c) in assigns() if t.startswith("new_motl_df.loc[:,[") and "shift_x" in t]
@@ -235,18 +452,20 @@ def translate(src):
         t, v = hits[0]
         tgt = ast.parse(t, mode="eval").body
         return [src.literal(tgt.slice.elts[1]), core.norm_expr(v)]
-    sh = src.anchor("shift+=rotations.apply(center_shift)", shift)
-    G["shiftFields"], G["shiftRhs"] = sh if sh else ([], "")
+    put(["shiftFields", "shiftRhs"], "shift+=rotations.apply(center_shift)", shift)
 
-    G["rhoExpr"] = src.anchor("rho", text(only("rho"))) or ""
-    G["theExpr"] = src.anchor("the", text(only("the"))) or ""
-    G["repTheExpr"] = src.anchor("rep_the", text(only("rep_the"))) or ""
-    G["repZExpr"] = src.anchor("rep_z", text(only("rep_z"))) or ""
+    put("rhoExpr", "rho", text(only("rho")))
+    put("theExpr", "the", text(only("the")))
+    put("repTheExpr", "rep_the", text(only("rep_the")))
+    put("repZExpr", "rep_z", text(only("rep_z")))
 
     def polar():
         out = []
         for k in range(3):
-            out.append(core.norm_expr(only(f"center_shift[:,{k}]")()))
+            v = [(v, c) for (t, v, c) in assigns() if t == f"center_shift[:,{k}]"]
+            if len(v) != 1 or v[0][1] is not None:
+                raise A(f"{FN}: exactly one UNCONDITIONAL assignment to center_shift[:,{k}]")
+            out.append(core.norm_expr(v[0][0]))
         tile = [v for (t, v, c) in assigns() if t == "center_shift"]
         if [core.norm_expr(v) for v in tile] != ["np.zeros([rot_rho.shape[0],3])", "np.tile(center_shift,(len(self.df),1))"]:
             raise A(f"{FN}: center_shift = zeros / tile(center_shift, (len(self.df), 1))")
@@ -258,11 +477,8 @@ def translate(src):
             raise A(f"{FN}: cyclic new_angles = zeros((n_subunits,3))")
         if core.norm_expr(only("new_motl_df.loc[:,['phi','theta','psi']]")()) != "new_rotations.as_euler(seq='zxz',degrees=True)":
             raise A(f"{FN}: [phi,theta,psi] = new_rotations.as_euler")
-        first = [core.norm_expr(v) for (t, v, c) in assigns() if t == "new_motl_df"][0]
-        if first != "pd.concat([self.df]*n_subunits)":
-            raise A(f"{FN}: new_motl_df = pd.concat([self.df] * n_subunits)")
         return out
-    G["polarExprs"] = src.anchor("center_shift polar form + tiling", polar) or []
+    put("polarExprs", "center_shift polar form + tiling", polar)
 
     def calls_update():
         f = fn()
@@ -276,11 +492,14 @@ def translate(src):
         if len(ret) != 1 or core.norm_expr(ret[0].value) != "new_motl":
             raise A(f"{FN}: return new_motl")
         return True
-    G["callsUpdate"] = bool(src.anchor("update_coordinates on the result", calls_update))
+    put("callsUpdate", "update_coordinates on the result", calls_update)
 
     def upd():
-        f = src.find(REL, "Motl.update_coordinates.round_and_recenter")
-        asg = _assigns(f)
+        outer = upd_fn()
+        f = [st for st in outer.body if isinstance(st, ast.FunctionDef) and st.name == "round_and_recenter"]
+        if len(f) != 1:
+            raise A("update_coordinates: inner function applied row by row")
+        asg = _assigns(f[0])
         modes, shifted, rest = [], [], []
         for ax in "xyz":
             v = [v for (t, v, c) in asg if t == f"new_row['{ax}']"]
@@ -296,13 +515,10 @@ def translate(src):
             if len(s) != 1 or len(r) != 1:
                 raise A(f"update_coordinates: shifted_{ax} / new_row['shift_{ax}']")
             shifted.append(core.norm_expr(s[0])); rest.append(core.norm_expr(r[0]))
-        outer = src.find(REL, "Motl.update_coordinates")
         if "self.df=self.df.apply(round_and_recenter,axis=1)" not in [core.norm_expr(st) for st in outer.body if isinstance(st, ast.Assign)]:
             raise A("update_coordinates: self.df = self.df.apply(round_and_recenter, axis=1)")
         return [modes, shifted, rest]
-    up = src.anchor("update_coordinates: ROUND_HALF_UP, shifted, rest", upd)
-    G["roundingModes"], G["shiftedExprs"], G["restExprs"] = up if up else ([], [], [])
-
+    put(["roundingModes", "shiftedExprs", "restExprs"], "update_coordinates: ROUND_HALF_UP, shifted, rest", upd)
 
     def symspec():
         f = fn()
@@ -329,12 +545,26 @@ def translate(src):
         if "nfold" not in nb or "s_type" not in nb or nb["s_type"] != code[0]:
             raise A(f"{FN}: numeric branch: s_type = 1; nfold = int(symmetry)")
         return [nf[0], core.norm_expr(cyc_if[0].test), types, nb["nfold"], int(code[0])]
-    sy = src.anchor("symmetry argument: 'Cn'/'cn' string or number", symspec)
-    G["strNfoldExpr"], G["cyclicPrefixTest"], G["numericTypes"], G["numericNfoldExpr"], G["cyclicTypeCode"] = sy if sy else ("", "", [], "", 0)
+    put(["strNfoldExpr", "cyclicPrefixTest", "numericTypes", "numericNfoldExpr", "cyclicTypeCode"], "symmetry argument: 'Cn'/'cn' string or number", symspec)
+
+    def sig():
+        raw = src.find(REL, FN)
+        a = raw.args
+        names = [x.arg for x in a.args]
+        if a.defaults or a.kw_defaults or a.vararg or a.kwarg or a.kwonlyargs:
+            raise A(f"{FN}: signature has defaults / *args / **kwargs: {ast.unparse(a)}")
+        u = src.find(REL, "Motl.update_coordinates").args
+        if [x.arg for x in u.args] != ["self"] or u.defaults or u.vararg or u.kwarg or u.kwonlyargs:
+            raise A(f"Motl.update_coordinates: signature {ast.unparse(u)}")
+        return names
+    put("signature", "signature (self, symmetry, xyz_shift): no defaults", sig)
 
     L = core.lean_str
     LL = core.lean_str_list
     B = lambda b: "true" if b else "false"
+
+    def LLm(xs):
+        return "[\n  " + ",\n  ".join(L(x) for x in xs) + "]" if xs else "[]"
     return f"""-- GENERATED by harness/props/c10.py from {REL} ({FN}, Motl.update_coordinates); do not edit
 namespace CryoCat.Gen.C10
 def anchorsOk : Bool := {B(src.ok)}
@@ -349,6 +579,8 @@ def indexDst : String := {L(G["indexDst"])}
 def indexStart : Nat := {G["indexStart"]}
 def indexStopExpr : String := {L(G["indexStopExpr"])}
 def sortKey : String := {L(G["sortKey"])}
+def sortKind : String := {L(G["sortKind"])}
+def expandExpr : String := {L(G["expandExpr"])}
 def idDst : String := {L(G["idDst"])}
 def idStart : Nat := {G["idStart"]}
 def idStopExpr : String := {L(G["idStopExpr"])}
@@ -373,6 +605,9 @@ def callsUpdate : Bool := {B(G["callsUpdate"])}
 def roundingModes : List String := {LL(G["roundingModes"])}
 def shiftedExprs : List String := {LL(G["shiftedExprs"])}
 def restExprs : List String := {LL(G["restExprs"])}
+def signature : List String := {LL(G["signature"])}
+def body : List String := {LLm(G["body"])}
+def updBody : List String := {LLm(G["updBody"])}
 end CryoCat.Gen.C10
 """
 
@@ -394,12 +629,13 @@ def _zxz(phi, theta, psi):
 
 
 # ------------------------------------------------------------------ generators
-QUICK_NS = list(range(1, 13)) + [7, 11, 13, 14, 16, 25, 64]
-FORMS = ["C", "c", "int"]
+ALL_NS = list(range(1, 65))
+FORMS = ["C", "c", "int", "float", "npint", "npfloat", "Csp", "C0", "csp0"]
+SFORMS = ["ndarray", "ndarray", "list", "tuple"]
 
 
 def _forms():
-    return FORMS + (["float", "npint", "npfloat"] if FLOAT_FORMS else [])
+    return FORMS if FLOAT_FORMS else [f for f in FORMS if f not in ("float", "npint", "npfloat")]
 
 
 def _dy(rng, lo, hi):
@@ -421,16 +657,21 @@ def _angle(rng, theta=False):
 
 def _coord(rng):
     k = rng.random()
-    if k < 0.70: return float(rng.randint(0, 2000))
-    if k < 0.80: return float(rng.randint(-300, 300))
+    if k < 0.62: return float(rng.randint(0, 2000))
+    if k < 0.72: return float(rng.randint(-300, 300))
+    if k < 0.80: return float(rng.randint(-3, 3))          # next to the origin planes: subunits land below -0.5
     if k < 0.93: return _dy(rng, -50, 2000)
     return rng.uniform(-500, 4000)
+
+
+HALF_BELOW = 0.49999999999999994   # largest double below 1/2: floor(v + 0.5) says 1, Decimal says 0
 
 
 def _shift(rng):
     k = rng.random()
     if k < 0.15: return 0.0
-    if k < 0.30: return rng.choice([0.5, -0.5, 1.5, -1.5, 2.5, -2.5])   # exact ties when the offset is 0
+    if k < 0.28: return rng.choice([0.5, -0.5, 1.5, -1.5, 2.5, -2.5])   # exact ties when the offset is 0
+    if k < 0.33: return rng.choice([HALF_BELOW, -HALF_BELOW])
     if k < 0.75: return _dy(rng, -3, 3)
     return rng.uniform(-10, 10)
 
@@ -449,8 +690,10 @@ def _row(rng, sid):
     return r
 
 
-def _offset(rng):
+def _offset(rng, azimuth=False):
     k = rng.random()
+    if azimuth:   # off the axis and off the +x half-line: non-zero azimuth
+        return "generic", [_dy(rng, -60, 60), rng.choice([-1, 1]) * _dy(rng, 1, 60), _dy(rng, -60, 60)]
     if k < 0.40: return "generic", [_dy(rng, -60, 60), _dy(rng, -60, 60), _dy(rng, -60, 60)]
     if k < 0.52: return "on-axis", [0.0, 0.0, rng.choice([_dy(rng, -60, 60), 7.0, -3.5])]
     if k < 0.62: return "zero", [0.0, 0.0, 0.0]
@@ -460,87 +703,200 @@ def _offset(rng):
     return "tiny", [rng.uniform(-1e-3, 1e-3), rng.uniform(-1e-3, 1e-3), rng.uniform(-1e-3, 1e-3)]
 
 
-def _case(rng, n, form, maxcells):
+def _ids(rng, N):
+    """parent ids: unique in random row order / per-tomogram numbering (the same ids in two tomograms) / one id twice / all equal"""
+    k = rng.random()
+    if N >= 2 and k < 0.16:      # per-tomogram numbering
+        a = (N + 1) // 2
+        ids = list(range(1, a + 1)) + list(range(1, N - a + 1))
+        if rng.random() < 0.5: rng.shuffle(ids)
+        return ids, "per-tomogram"
+    if N >= 2 and k < 0.27:      # some id twice
+        ids = rng.sample(range(1, 5 * N + 12), N)
+        i, j = rng.sample(range(N), 2)
+        ids[j] = ids[i]
+        return ids, "one-twice"
+    if N >= 2 and k < 0.31:
+        return [rng.randint(1, 9)] * N, "all-equal"
+    ids = rng.sample(range(1, 5 * N + 12), N)
+    if rng.random() < 0.2: ids.sort()
+    return ids, "unique"
+
+
+def _rows(rng, N):
+    ids, idkind = _ids(rng, N)
+    rows = [_row(rng, sid) for sid in ids]
+    if idkind == "per-tomogram":
+        a = (N + 1) // 2
+        for i, r in enumerate(rows): r[IX["tomo_id"]] = 1.0 if i < a else 2.0
+    return [[f2b(v) for v in r] for r in rows], idkind
+
+
+def _call(rng, n, form, azimuth=False, sform=None):
+    skind, s = _offset(rng, azimuth)
+    return dict(sym=dict(form=form, n=n), s=[f2b(v) for v in s], skind=skind, sform=sform or rng.choice(SFORMS))
+
+
+def _case(rng, n, form, maxcells, Nmax=100):
     k = rng.random()
     if k < 0.10: N = 1
     elif k < 0.62: N = rng.randint(2, 6)
     elif k < 0.90: N = rng.randint(7, 20)
     else: N = rng.randint(21, 100)
-    N = max(1, min(N, maxcells // n))
-    ids = rng.sample(range(1, 5 * N + 12), N)
-    if rng.random() < 0.2: ids.sort()
-    skind, s = _offset(rng)
-    return dict(sym=dict(form=form, n=n), s=[f2b(v) for v in s], skind=skind, rows=[[f2b(v) for v in _row(rng, sid)] for sid in ids])
+    N = max(1, min(N, Nmax, maxcells // n))
+    rows, idkind = _rows(rng, N)
+    return dict(rows=rows, idkind=idkind, calls=[_call(rng, n, form)])
+
+
+def _session(rng, n, maxcells, forms):
+    """G2: several calls in ONE process on the SAME Motl object, the offset handed over in the SAME ndarray (rewritten in place
+    between the calls); the first call has an offset with non-zero azimuth, a later one repeats the symmetry order n"""
+    N = max(1, min(rng.randint(1, 5), maxcells // (3 * n)))
+    rows, idkind = _rows(rng, N)
+    calls = [_call(rng, n, rng.choice(forms), azimuth=True, sform="ndarray"),
+             _call(rng, n, rng.choice(forms), azimuth=rng.random() < 0.6, sform="ndarray")]
+    if rng.random() < 0.5:
+        m = rng.choice([n, rng.randint(1, 12)])
+        calls.insert(rng.randint(1, 2), _call(rng, m, rng.choice(forms), sform=rng.choice(["ndarray", "list"])))
+    return dict(rows=rows, idkind=idkind, calls=calls)
 
 
 def generate(rng, tier, n):
     forms = _forms()
-    maxcells = {"quick": 700, "thorough": 2500, "search": 300}[tier]
+    maxcells = {"quick": 420, "thorough": 2500, "search": 300}[tier]
     made = 0
     if tier == "thorough":      # exhaustive sweep: every n in 1..64 in every symmetry form
-        for nn in range(1, 65):
+        for nn in ALL_NS:
             for form in forms:
                 if made < n:
                     yield _case(rng, nn, form, maxcells); made += 1
-    elif tier == "quick":
-        for i, nn in enumerate(QUICK_NS):
+    else:                        # quick / search: EVERY n in 1..64 once, on tiny lists, forms cycling from a random start
+        off = rng.randrange(len(forms))
+        for nn in ALL_NS:
             if made < n:
-                yield _case(rng, nn, forms[i % len(forms)], maxcells); made += 1
-    else:                        # search: all n not dividing 360 first, small lists
-        for nn in [m for m in range(1, 65) if 360 % m != 0]:
-            if made < n:
-                yield _case(rng, nn, forms[nn % len(forms)], maxcells); made += 1
+                yield _case(rng, nn, forms[(nn + off) % len(forms)], maxcells=3 * nn, Nmax=3); made += 1
+        if tier == "search":     # all n not dividing 360 a second time, other forms
+            for nn in [m for m in ALL_NS if 360 % m != 0]:
+                if made < n:
+                    yield _case(rng, nn, forms[(nn + off + 3) % len(forms)], maxcells); made += 1
     while made < n:
-        nn = rng.randint(1, 64) if rng.random() < 0.7 else rng.choice([m for m in range(1, 65) if 360 % m != 0])
-        yield _case(rng, nn, rng.choice(forms), maxcells); made += 1
+        nn = rng.randint(1, 64) if rng.random() < 0.7 else rng.choice([m for m in ALL_NS if 360 % m != 0])
+        k = rng.random()
+        if k < 0.22:
+            yield _session(rng, min(nn, 24), maxcells, forms)
+        elif k < 0.29:           # long lists (the quantifier goes to 100 particles) with a small order
+            small = rng.randint(1, 4)
+            rows, idkind = _rows(rng, rng.randint(40, 100))
+            yield dict(rows=rows, idkind=idkind, calls=[_call(rng, small, rng.choice(forms))])
+        else:
+            yield _case(rng, nn, rng.choice(forms), maxcells)
+        made += 1
+
+
+def _calls(case):
+    """the calls of a case (old single-call corpus format accepted)"""
+    if "calls" in case:
+        return case["calls"]
+    return [dict(sym=case["sym"], s=case["s"], skind=case.get("skind", "?"), sform=case.get("sform", "ndarray"))]
 
 
 def key(case):
     import hashlib, json
-    return hashlib.sha1(json.dumps([case["sym"], case["s"], case["rows"]]).encode()).hexdigest()
+    return hashlib.sha1(json.dumps([[(c["sym"], c["s"], c.get("sform")) for c in _calls(case)], case["rows"]], sort_keys=True).encode()).hexdigest()
 
 
 def shrink(case):
-    rows, sym = case["rows"], case["sym"]
+    k0 = key(case)
+    for cand in _shrink(case):
+        if key(cand) != k0:
+            yield cand
+
+
+def _shrink(case):
+    rows = case["rows"]
+    calls = _calls(case)
+    base = dict(rows=rows, idkind=case.get("idkind", "?"), calls=calls)
+    if len(calls) > 1:
+        for i in range(len(calls)):
+            yield dict(base, calls=calls[:i] + calls[i + 1:])
     if len(rows) > 1:
         for i in range(min(len(rows), 6)):
-            yield dict(case, rows=[rows[i]])
-        yield dict(case, rows=rows[: len(rows) // 2])
-    for m in (7, 4, 3, 2, 1):
-        if m < sym["n"]:
-            yield dict(case, sym=dict(sym, n=m))
-    if sym["form"] != "int":
-        yield dict(case, sym=dict(sym, form="int"))
-    for s in ([1.0, 0.0, 0.0], [0.0, 0.0, 1.0], [1.0, 2.0, 3.0]):
-        sb = [f2b(v) for v in s]
-        if sb != case["s"]:
-            yield dict(case, s=sb, skind="shrunk")
+            yield dict(base, rows=[rows[i]])
+        for i in range(min(len(rows) - 1, 5)):
+            yield dict(base, rows=rows[i:i + 2])
+        yield dict(base, rows=rows[: len(rows) // 2])
+    for ci, c in enumerate(calls):
+        sym = c["sym"]
+
+        def with_call(**kw):
+            return dict(base, calls=calls[:ci] + [dict(c, **kw)] + calls[ci + 1:])
+        for m in (7, 4, 3, 2, 1):
+            if m < sym["n"]:
+                yield dict(base, calls=[dict(d, sym=dict(d["sym"], n=m)) if d["sym"]["n"] == sym["n"] else d for d in calls])
+        if sym["form"] != "int":
+            yield with_call(sym=dict(sym, form="int"))
+        if c.get("sform", "ndarray") != "ndarray" and len(calls) == 1:
+            yield with_call(sform="ndarray")
+        for s in ([1.0, 0.0, 0.0], [0.0, 0.0, 1.0], [1.0, 2.0, 3.0]):
+            sb = [f2b(v) for v in s]
+            if sb != c["s"]:
+                yield with_call(s=sb, skind="shrunk")
     # plain parents: integer coordinates, zero shifts, simple angles
     simple = []
     for i, r in enumerate(rows):
         v = [0.0] * 20
         v[IX["subtomo_id"]] = b2f(r[IX["subtomo_id"]]); v[IX["tomo_id"]] = 1.0; v[IX["class"]] = 1.0
         v[IX["x"]], v[IX["y"]], v[IX["z"]] = 100.0 + i, 200.0, 300.0
-        v[IX["phi"]], v[IX["theta"]], v[IX["psi"]] = 30.0, 60.0, 45.0
+        v[IX["phi"]], v[IX["theta"]], v[IX["psi"]] = 30.0 + 10 * i, 60.0, 45.0
         simple.append([f2b(x) for x in v])
     if simple != rows:
-        yield dict(case, rows=simple)
-        zero_ang = [list(r) for r in simple]
-        for r in zero_ang:
-            for f in ("phi", "theta", "psi"): r[IX[f]] = f2b(0.0)
-        yield dict(case, rows=zero_ang)
-    else:
-        zero_ang = [list(r) for r in rows]
-        for r in zero_ang:
-            for f in ("phi", "theta", "psi"): r[IX[f]] = f2b(0.0)
-        if zero_ang != rows:
-            yield dict(case, rows=zero_ang)
+        yield dict(base, rows=simple)
 
 
 # ------------------------------------------------------------------ implementation
 def _symmetry_arg(sym):
     n, form = sym["n"], sym["form"]
-    return {"C": f"C{n}", "c": f"c{n}", "int": int(n), "float": float(n), "npint": np.int64(n), "npfloat": np.float64(n)}[form]
+    if form == "text":
+        return sym["text"]
+    return {"C": f"C{n}", "c": f"c{n}", "int": int(n), "float": float(n), "npint": np.int64(n), "npfloat": np.float64(n),
+            "Csp": f"C {n}", "C0": f"C0{n}", "csp0": f"c  00{n}"}[form]
+
+
+def _sym_wire(sym):
+    a = _symmetry_arg(sym)
+    return {"str": [ord(c) for c in a]} if isinstance(a, str) else {"num": int(a)}
+
+
+def _where(e):
+    """last frame of the traceback inside /cryocat/ ('' = the exception never passed through the library: harness / third party)"""
+    import traceback
+    for fr in reversed(traceback.extract_tb(e.__traceback__)):
+        if "/cryocat/" in fr.filename:
+            return f"{os.path.basename(fr.filename)}:{fr.lineno}"
+    return ""
+
+
+def _frame_sig(df):
+    """what a caller could notice about a frame: columns, dtypes, index, every cell bit for bit"""
+    return dict(cols=[str(c) for c in df.columns], dtypes=[str(t) for t in df.dtypes], index=[repr(i) for i in df.index],
+                cells=[[f2b(x) if isinstance(x, (float, np.floating)) else repr(x) for x in row] for row in df.to_numpy(dtype=object).tolist()])
+
+
+def _observe(out):
+    """G3: the returned table as it is — python type, column labels, dtypes; numeric cells bit for bit, anything else as repr"""
+    cols = [str(c) for c in out.df.columns]
+    dtypes = [str(t) for t in out.df.dtypes]
+    kinds = [t.kind if hasattr(t, "kind") else "O" for t in out.df.dtypes]
+    nonnum = [c for c, k in zip(cols, kinds) if k not in "fiu"]
+    rec = dict(cols=cols, dtypes=dtypes, kinds="".join(kinds), type=type(out).__name__, nonnumeric=nonnum,
+               index_ok=list(out.df.index) == list(range(len(out.df))), nrows=len(out.df))
+    if nonnum or sorted(cols) != sorted(FIELDS):
+        rec["rows"] = None
+        rec["sample"] = [repr(x)[:40] for x in (out.df.iloc[0].tolist() if len(out.df) else [])]
+    else:
+        arr = out.df[FIELDS].to_numpy()
+        rec["rows"] = [[f2b(float(x)) for x in row] for row in arr.tolist()]
+    return rec
 
 
 def run_impl(case):
@@ -549,18 +905,43 @@ def run_impl(case):
     vals = [[b2f(b) for b in r] for r in case["rows"]]
     df = pd.DataFrame(vals, columns=FIELDS, dtype=float)
     m = cryomotl.Motl(df)
-    s = np.array([b2f(b) for b in case["s"]], dtype=float)
-    with warnings.catch_warnings():
-        warnings.simplefilter("ignore")
-        out = m.split_in_asymmetric_subunits(_symmetry_arg(case["sym"]), s)
-    cols = [str(c) for c in out.df.columns]
-    arr = out.df[FIELDS].to_numpy(dtype=float) if sorted(cols) == sorted(FIELDS) else out.df.to_numpy(dtype=float)
-    return dict(cols=cols, type=type(out).__name__, index_ok=list(out.df.index) == list(range(len(out.df))),
-                rows=[[f2b(x) for x in row] for row in arr.tolist()])
+    before = _frame_sig(m.df)
+    shared = None       # the caller-owned ndarray handed to every call that takes its offset as ndarray
+    outs = []
+    for c in _calls(case):
+        svals = [b2f(b) for b in c["s"]]
+        sform = c.get("sform", "ndarray")
+        if sform == "ndarray":
+            if shared is None:
+                shared = np.array(svals, dtype=float)
+            else:
+                shared[:] = svals          # the caller legitimately rewrites its own array between the calls
+            arg = shared
+        elif sform == "list":
+            arg = list(svals)
+        else:
+            arg = tuple(svals)
+        sym = _symmetry_arg(c["sym"])
+        try:
+            with warnings.catch_warnings():
+                warnings.simplefilter("ignore")
+                out = m.split_in_asymmetric_subunits(sym, arg)
+            rec = _observe(out)
+        except Exception as e:
+            rec = {"error": f"{type(e).__name__}: {str(e)[:300]}", "where": _where(e)}
+        after_s = [f2b(float(x)) for x in arg]
+        rec["s_intact"] = (after_s == c["s"]) and type(arg).__name__ == {"ndarray": "ndarray", "list": "list", "tuple": "tuple"}[sform]
+        sig = _frame_sig(m.df)
+        rec["df_intact"] = sig == before
+        if not rec["df_intact"]:
+            rec["df_change"] = next((k for k in ("cols", "dtypes", "index", "cells") if sig[k] != before[k]), "?")
+            m = cryomotl.Motl(pd.DataFrame(vals, columns=FIELDS, dtype=float))   # later calls are judged on the intended input
+        outs.append(rec)
+    return dict(calls=outs)
 
 
 def requests(case, obs):
-    return [dict(op="expand", n=case["sym"]["n"], s=case["s"], rows=case["rows"])]
+    return [dict(op="expand", sym=_sym_wire(c["sym"]), s=c["s"], rows=case["rows"]) for c in _calls(case)]
 
 
 # ------------------------------------------------------------------ judgement
@@ -568,152 +949,270 @@ def _f(bits):
     return [b2f(b) for b in bits]
 
 
+def _obs_calls(case, obs):
+    if "calls" in obs:
+        return obs["calls"]
+    return [obs] * len(_calls(case))     # framework-level error: the whole case raised outside any call
+
+
 def _maxdev(case, obs, resps):
     """largest |impl - model| over orientation entries / complete positions (None when not comparable)"""
     try:
-        subs = resps[0]["subs"]
-        out = obs["rows"]
-        if len(subs) != len(out):
-            return None
         dev = 0.0
-        for u, o in zip(subs, out):
-            u, o = _f(u), _f(o)
-            M = _zxz(o[IX["phi"]], o[IX["theta"]], o[IX["psi"]])
-            dev = max(dev, float(np.max(np.abs(M - np.array(u[20:29]).reshape(3, 3)))))
-            for a, b in (("x", "shift_x"), ("y", "shift_y"), ("z", "shift_z")):
-                dev = max(dev, abs((o[IX[a]] + o[IX[b]]) - (u[IX[a]] + u[IX[b]])))
+        for o, m in zip(_obs_calls(case, obs), resps):
+            subs = m["subs"]
+            out = o["rows"]
+            if len(subs) != len(out):
+                return None
+            for u, r in zip(subs, out):
+                u, r = _f(u), _f(r)
+                M = _zxz(r[IX["phi"]], r[IX["theta"]], r[IX["psi"]])
+                dev = max(dev, float(np.max(np.abs(M - np.array(u[20:29]).reshape(3, 3)))))
+                for a, b in (("x", "shift_x"), ("y", "shift_y"), ("z", "shift_z")):
+                    dev = max(dev, abs((r[IX[a]] + r[IX[b]]) - (u[IX[a]] + u[IX[b]])))
         return dev
     except Exception:
         return None
 
 
-def judge(case, obs, resps):
-    out = []
-    n = case["sym"]["n"]
-    sym_txt = repr(_symmetry_arg(case["sym"]))
-    if "error" in obs:
-        return [dict(kind="spec", clause="raises", detail=f"split_in_asymmetric_subunits({sym_txt}, s) raised {obs['error']} @{obs.get('where','')}")]
-    parents = [_f(r) for r in case["rows"]]
+def _match(nrow, ok):
+    """bijection outputs -> parents (both `nrow` long) with ok(i_out, j_parent) None for all pairs; identity first"""
+    if all(ok(i, i) is None for i in range(nrow)):
+        return list(range(nrow))
+    import itertools
+    if nrow <= 6:
+        for perm in itertools.permutations(range(nrow)):
+            if all(ok(i, perm[i]) is None for i in range(nrow)):
+                return list(perm)
+        return None
+    free = list(range(nrow)); perm = []
+    for i in range(nrow):
+        j = next((j for j in free if ok(i, j) is None), None)
+        if j is None:
+            return None
+        perm.append(j); free.remove(j)
+    return perm
+
+
+def _spec(parents, n, s, rows, sym_txt):
+    """THE STATEMENT, evaluated directly on the implementation's output — independent of the Lean model and of any intermediate
+    result of the implementation; parents are identified by geom5, parents that share an id by a matching on the clauses"""
     N = len(parents)
-    s = np.array(_f(case["s"]))
-    rows = [_f(r) for r in obs["rows"]]
-    if obs["cols"] != FIELDS:
-        out.append(dict(kind="spec" if sorted(obs["cols"]) != sorted(FIELDS) else "corr", clause="columns", detail=f"columns {obs['cols']}"))
-        if sorted(obs["cols"]) != sorted(FIELDS):
-            return out
-    # ---- the statement, evaluated directly on the implementation's output ------------------------------
     if len(rows) != n * N:
-        return out + [dict(kind="spec", clause="count", detail=f"{sym_txt}: {len(rows)} particles returned for {N} parents, property demands {n}*{N}={n*N}")]
+        return [dict(kind="spec", clause="count", detail=f"{sym_txt}: {len(rows)} particles returned for {N} parents, property demands {n}*{N}={n*N}")]
     ids = [r[IX["subtomo_id"]] for r in rows]
     if len(set(ids)) != len(ids):
-        out.append(dict(kind="spec", clause="unique-subtomo-id", detail=f"{sym_txt}: repeated subtomo_id among outputs"))
-    byid = {p[IX["subtomo_id"]]: p for p in parents}
-    seen = {}
-    worst = dict(orient=0.0, pos=0.0)
+        return [dict(kind="spec", clause="unique-subtomo-id", detail=f"{sym_txt}: repeated subtomo_id among outputs")]
+    byid = {}
+    for j, p in enumerate(parents):
+        byid.setdefault(p[IX["subtomo_id"]], []).append(j)
+    groups = {}
     for i, r in enumerate(rows):
         pid, k1 = r[IX["geom5"]], r[IX["geom2"]]
         if pid not in byid:
-            out.append(dict(kind="spec", clause="parent-geom5", detail=f"output {i}: geom5={pid} is no input subtomo_id")); break
+            return [dict(kind="spec", clause="parent-geom5", detail=f"output {i}: geom5={pid} is no input subtomo_id")]
         if not (k1 == int(k1) and 1 <= k1 <= n):
-            out.append(dict(kind="spec", clause="index-geom2", detail=f"output {i}: geom2={k1} not in 1..{n}")); break
-        if (pid, k1) in seen:
-            out.append(dict(kind="spec", clause="index-geom2", detail=f"outputs {seen[(pid,k1)]} and {i}: parent {pid} has subunit index {k1} twice (so another is missing)")); break
-        seen[(pid, k1)] = i
-        P = byid[pid]
-        k = int(k1) - 1
-        R = _zxz(P[IX["phi"]], P[IX["theta"]], P[IX["psi"]])
-        want = R @ _rz(360.0 * k / n)
-        got = _zxz(r[IX["phi"]], r[IX["theta"]], r[IX["psi"]])
-        d = float(np.max(np.abs(want - got)))
-        worst["orient"] = max(worst["orient"], d)
-        if not d <= TOL:
-            out.append(dict(kind="spec", clause="orientation", detail=f"{sym_txt}: parent {pid} subunit {k1}: orientation differs from R*Rz(360*{k}/{n}) by {d:.3g}")); break
-        centre = np.array([P[IX["x"]] + P[IX["shift_x"]], P[IX["y"]] + P[IX["shift_y"]], P[IX["z"]] + P[IX["shift_z"]]])
-        wantp = centre + want @ s
-        gotp = np.array([r[IX["x"]] + r[IX["shift_x"]], r[IX["y"]] + r[IX["shift_y"]], r[IX["z"]] + r[IX["shift_z"]]])
-        d = float(np.max(np.abs(wantp - gotp)))
-        worst["pos"] = max(worst["pos"], d)
-        if not d <= TOL * max(1.0, float(np.max(np.abs(wantp)))):
-            out.append(dict(kind="spec", clause="position", detail=f"{sym_txt}: parent {pid} subunit {k1}: complete position {gotp.tolist()} but centre + R*Rz(360*{k}/{n}) s = {wantp.tolist()}")); break
-        bad = [f for f in OTHER if not (r[IX[f]] == P[IX[f]])]
-        if bad:
-            out.append(dict(kind="spec", clause="other-fields", detail=f"parent {pid} subunit {k1}: fields {bad} differ from the parent's")); break
+            return [dict(kind="spec", clause="index-geom2", detail=f"output {i}: geom2={k1} not in 1..{n}")]
+        groups.setdefault((pid, int(k1)), []).append(i)
         for a, b in (("x", "shift_x"), ("y", "shift_y"), ("z", "shift_z")):
             if r[IX[a]] != math.floor(r[IX[a]]):
-                out.append(dict(kind="spec", clause="integer-xyz", detail=f"parent {pid} subunit {k1}: {a}={r[IX[a]]!r} is not an integer")); break
+                return [dict(kind="spec", clause="integer-xyz", detail=f"output {i} (parent id {pid} subunit {k1}): {a}={r[IX[a]]!r} is not an integer")]
             if not abs(r[IX[b]]) <= 0.5:
-                out.append(dict(kind="spec", clause="shift-bound", detail=f"parent {pid} subunit {k1}: |{b}|={abs(r[IX[b]])!r} > 0.5")); break
-        else:
+                return [dict(kind="spec", clause="shift-bound", detail=f"output {i} (parent id {pid} subunit {k1}): |{b}|={abs(r[IX[b]])!r} > 0.5")]
+    for pid, js in byid.items():
+        for k1 in range(1, n + 1):
+            got = len(groups.get((pid, k1), []))
+            if got != len(js):
+                return [dict(kind="spec", clause="index-geom2", detail=f"{sym_txt}: {len(js)} parent(s) with id {pid} but subunit index {k1} recorded {got} time(s) for that id "
+                             f"(a parent has an index twice, another index is missing)")]
+    Rp, Ro = {}, {}
+
+    def rp(j):
+        if j not in Rp:
+            P = parents[j]
+            Rp[j] = (_zxz(P[IX["phi"]], P[IX["theta"]], P[IX["psi"]]),
+                     np.array([P[IX["x"]] + P[IX["shift_x"]], P[IX["y"]] + P[IX["shift_y"]], P[IX["z"]] + P[IX["shift_z"]]]))
+        return Rp[j]
+
+    def ro(i):
+        if i not in Ro:
+            r = rows[i]
+            Ro[i] = (_zxz(r[IX["phi"]], r[IX["theta"]], r[IX["psi"]]),
+                     np.array([r[IX["x"]] + r[IX["shift_x"]], r[IX["y"]] + r[IX["shift_y"]], r[IX["z"]] + r[IX["shift_z"]]]))
+        return Ro[i]
+    rzk = {k: _rz(360.0 * k / n) for k in range(n)}
+
+    def clause(i, j, k1):
+        """None when output i is the k1-th subunit of parent j, else the finding"""
+        P, r = parents[j], rows[i]
+        R, centre = rp(j)
+        got, gotp = ro(i)
+        k = k1 - 1
+        want = R @ rzk[k]
+        d = float(np.max(np.abs(want - got)))
+        who = f"parent row {j} (id {P[IX['subtomo_id']]}) subunit {k1}"
+        if not d <= TOL:
+            return dict(kind="spec", clause="orientation", detail=f"{sym_txt}: {who}: orientation differs from R*Rz(360*{k}/{n}) by {d:.3g}")
+        wantp = centre + want @ s
+        d = float(np.max(np.abs(wantp - gotp)))
+        if not d <= TOL * max(1.0, float(np.max(np.abs(wantp)))):
+            return dict(kind="spec", clause="position", detail=f"{sym_txt}: {who}: complete position {gotp.tolist()} but centre + R*Rz(360*{k}/{n}) s = {wantp.tolist()}")
+        bad = [f for f in OTHER if not (r[IX[f]] == P[IX[f]])]
+        if bad:
+            return dict(kind="spec", clause="other-fields", detail=f"{who}: fields {bad} differ from the parent's")
+        return None
+    for (pid, k1), outs in groups.items():
+        js = byid[pid]
+        if len(js) == 1:
+            f = clause(outs[0], js[0], k1)
+            if f:
+                return [f]
             continue
-        break
+        memo = {}
+
+        def ok(a, b):
+            if (a, b) not in memo:
+                memo[(a, b)] = clause(outs[a], js[b], k1)
+            return memo[(a, b)]
+        if _match(len(js), ok) is None:
+            first = next(ok(a, a) for a in range(len(js)) if ok(a, a) is not None)
+            first = dict(first, detail=first["detail"] + f" — and no other assignment of the {len(js)} outputs with geom5={pid}, geom2={k1} to the {len(js)} parents sharing that id satisfies the statement")
+            return [first]
+    return []
+
+
+def _judge_call(case, ci, c, o, m):
+    n = c["sym"]["n"]
+    sym_txt = repr(_symmetry_arg(c["sym"]))
+    tag = f"call {ci + 1}/{len(_calls(case))} " if len(_calls(case)) > 1 else ""
+    if "error" in o:
+        if not o.get("where"):
+            # G4: nothing of the library on the traceback — a harness / third-party failure is not a finding against the statement
+            return [dict(kind="corr", clause="harness-or-library-raised", detail=f"{tag}{o['error']} (no frame inside cryocat/)")]
+        return [dict(kind="spec", clause="raises", detail=f"{tag}split_in_asymmetric_subunits({sym_txt}, s) raised {o['error']} @{o.get('where','')}")]
+    out = []
+    # G2: caller-owned inputs
+    if not o.get("s_intact", True):
+        out.append(dict(kind="spec", clause="input-mutated", detail=f"{tag}{sym_txt}: the offset object handed in by the caller was changed by the call"))
+    if not o.get("df_intact", True):
+        out.append(dict(kind="spec", clause="input-mutated", detail=f"{tag}{sym_txt}: the particle list the method was called on was changed by the call ({o.get('df_change')})"))
     if out:
         return out
-    # ---- correspondence with the Lean model (CryoCat.C10.expand at Float) ------------------------------
-    m = resps[0] if resps else {"error": "no response"}
-    if "error" in m:
-        return [dict(kind="corr", clause="model-error", detail=str(m))]
+    parents = [_f(r) for r in case["rows"]]
+    s = np.array(_f(c["s"]))
+    if sorted(o["cols"]) != sorted(FIELDS):
+        return [dict(kind="spec", clause="columns", detail=f"{tag}columns {o['cols']}")]
+    if o.get("nonnumeric"):
+        # G3: a numeric field that comes back as text / object
+        return [dict(kind="spec", clause="dtype", detail=f"{tag}{sym_txt}: fields {o['nonnumeric']} returned with non-numeric dtype "
+                     f"{[d for c_, d in zip(o['cols'], o['dtypes']) if c_ in o['nonnumeric']]} (first row {o.get('sample')})")]
+    rows = [_f(r) for r in o["rows"]]
+    sp = _spec(parents, n, s, rows, sym_txt)
+    if sp:
+        return [dict(f, detail=tag + f["detail"]) for f in sp]
+    # ---- correspondence with the Lean model (CryoCat.C10.expandSym at Float) — everything below is kind corr ----------
+    if m is None or "error" in m:
+        return [dict(kind="corr", clause="model-error", detail=f"{tag}{m}")]
+    if m.get("kind") != "cyclic" or m.get("n") != n or m.get("subs") is None:
+        return [dict(kind="corr", clause="symmetry-vs-model", detail=f"{tag}{sym_txt}: the Lean parser says {m.get('kind')} n={m.get('n')}, the harness meant cyclic n={n}")]
+    if o["cols"] != FIELDS:
+        return [dict(kind="corr", clause="columns", detail=f"{tag}column order {o['cols']}")]
+    if any(k != "f" for k in o.get("kinds", "f" * 20)):
+        return [dict(kind="corr", clause="dtype-vs-model", detail=f"{tag}dtypes {o['dtypes']} (the documented table is all float64)")]
     subs = [_f(u) for u in m["subs"]]
     if len(subs) != len(rows):
-        return [dict(kind="corr", clause="count-vs-model", detail=f"model {len(subs)} impl {len(rows)}")]
+        return [dict(kind="corr", clause="count-vs-model", detail=f"{tag}model {len(subs)} impl {len(rows)}")]
     exact_offset = all(v == 0.0 for v in s)
     for i, (u, r) in enumerate(zip(subs, rows)):
         for f in ["subtomo_id", "geom2", "geom5"] + OTHER:
             if u[IX[f]] != r[IX[f]]:
-                return [dict(kind="corr", clause="bookkeeping-vs-model", detail=f"output {i}: {f} impl {r[IX[f]]!r} model {u[IX[f]]!r}")]
+                return [dict(kind="corr", clause="bookkeeping-vs-model", detail=f"{tag}output {i}: {f} impl {r[IX[f]]!r} model {u[IX[f]]!r}")]
         M = np.array(u[20:29]).reshape(3, 3)
         got = _zxz(r[IX["phi"]], r[IX["theta"]], r[IX["psi"]])
         d = float(np.max(np.abs(M - got)))
         if not d <= TOL:
-            return [dict(kind="corr", clause="orientation-vs-model", detail=f"output {i}: differs by {d:.3g}")]
+            return [dict(kind="corr", clause="orientation-vs-model", detail=f"{tag}output {i} (sorted parent {i // n}, subunit {i % n + 1}): differs by {d:.3g}")]
         for a, b in (("x", "shift_x"), ("y", "shift_y"), ("z", "shift_z")):
             pu, pr = u[IX[a]] + u[IX[b]], r[IX[a]] + r[IX[b]]
             if not abs(pu - pr) <= TOL * max(1.0, abs(pu)):
-                return [dict(kind="corr", clause="position-vs-model", detail=f"output {i}: {a}+{b} impl {pr!r} model {pu!r}")]
+                return [dict(kind="corr", clause="position-vs-model", detail=f"{tag}output {i} (sorted parent {i // n}, subunit {i % n + 1}): {a}+{b} impl {pr!r} model {pu!r}")]
             near_tie = (not exact_offset) and abs(abs(u[IX[b]]) - 0.5) < TIE_MARGIN
             if not near_tie and u[IX[a]] != r[IX[a]]:
-                return [dict(kind="corr", clause="rounding-vs-model", detail=f"output {i}: {a} impl {r[IX[a]]!r} model {u[IX[a]]!r} (pre-rounding value {pu!r}; model rounds half away from zero)")]
-    if not obs.get("index_ok", True) or obs.get("type") != "Motl":
-        return [dict(kind="corr", clause="container", detail=f"type {obs.get('type')} index_ok {obs.get('index_ok')}")]
+                return [dict(kind="corr", clause="rounding-vs-model", detail=f"{tag}output {i}: {a} impl {r[IX[a]]!r} model {u[IX[a]]!r} (pre-rounding value {pu!r}; model rounds the exact value half away from zero)")]
+    if not o.get("index_ok", True) or o.get("type") != "Motl":
+        return [dict(kind="corr", clause="container", detail=f"{tag}type {o.get('type')} index_ok {o.get('index_ok')}")]
     return []
 
 
+def judge(case, obs, resps):
+    calls = _calls(case)
+    if "calls" not in obs:     # the framework caught an exception outside any call (building the input, encoding the output)
+        if not obs.get("where"):
+            return [dict(kind="corr", clause="harness-or-library-raised", detail=f"{obs.get('error')} (no frame inside cryocat/)")]
+        return [dict(kind="spec", clause="raises", detail=f"raised {obs.get('error')} @{obs.get('where')}")]
+    out = []
+    for ci, (c, o) in enumerate(zip(calls, obs["calls"])):
+        m = resps[ci] if ci < len(resps) else None
+        out += _judge_call(case, ci, c, o, m)
+        if out:
+            break
+    return out
+
+
 def nontrivial(case, obs):
-    if "error" in obs or len(case["rows"]) < 2 or case["sym"]["n"] < 2:
+    if "calls" not in obs or any("error" in o for o in obs["calls"]) or len(case["rows"]) < 2:
         return False
-    s = _f(case["s"])
-    if s[0] == 0.0 and s[1] == 0.0:
+    if not any((b2f(r[IX["theta"]]) % 180.0) != 0.0 for r in case["rows"]):
         return False
-    return any((b2f(r[IX["theta"]]) % 180.0) != 0.0 for r in case["rows"])
+    for c in _calls(case):
+        s = _f(c["s"])
+        if c["sym"]["n"] >= 2 and not (s[0] == 0.0 and s[1] == 0.0):
+            return True
+    return False
 
 
 def stats(case, obs, resps):
-    n, N = case["sym"]["n"], len(case["rows"])
-    d = {"n": n, "n_class": "divides-360" if 360 % n == 0 else "not-dividing-360", "form": case["sym"]["form"],
-         "N": "1" if N == 1 else ("2-6" if N <= 6 else ("7-20" if N <= 20 else "21-100")), "offset": case.get("skind", "?"),
-         "impl": "raised" if "error" in obs else "returned"}
+    calls = _calls(case)
+    N = len(case["rows"])
+    oc = _obs_calls(case, obs)
+    ids = [r[IX["subtomo_id"]] for r in case["rows"]]
+    d = {"n": [c["sym"]["n"] for c in calls], "n_class": ["divides-360" if 360 % c["sym"]["n"] == 0 else "not-dividing-360" for c in calls],
+         "form": [c["sym"]["form"] for c in calls], "offset": [c.get("skind", "?") for c in calls], "offset_passed_as": [c.get("sform", "ndarray") for c in calls],
+         "N": "1" if N == 1 else ("2-6" if N <= 6 else ("7-20" if N <= 20 else "21-100")),
+         "calls_in_one_process_on_one_object": len(calls),
+         "same_n_repeated_in_session": "yes" if len({c["sym"]["n"] for c in calls}) < len(calls) else "no",
+         "parent_ids": "repeated" if len(set(ids)) < len(ids) else "unique", "idkind": case.get("idkind", "corpus"),
+         "impl": ["raised" if "error" in o else "returned" for o in oc],
+         "returned_dtypes": sorted({o.get("kinds", "?") for o in oc if "error" not in o})}
     dev = _maxdev(case, obs, resps)
     if dev is not None:
         d["max_dev_vs_model(log10)"] = "0" if dev == 0 else str(max(-17, int(math.floor(math.log10(dev)))))
     ties = 0
+    below = 0
     try:
-        s = _f(case["s"])
-        if any(v != 0.0 for v in s):
-            for u in resps[0]["subs"]:
-                u = _f(u)
-                ties += sum(1 for b in ("shift_x", "shift_y", "shift_z") if abs(abs(u[IX[b]]) - 0.5) < TIE_MARGIN)
-        else:
-            ties_exact = sum(1 for u in resps[0]["subs"] for b in ("shift_x", "shift_y", "shift_z") if abs(b2f(u[IX[b]])) == 0.5)
-            d["exact_half_ties"] = "some" if ties_exact else "none"
+        for c, m in zip(calls, resps):
+            s = _f(c["s"])
+            if any(v != 0.0 for v in s):
+                for u in m["subs"]:
+                    u = _f(u)
+                    ties += sum(1 for b in ("shift_x", "shift_y", "shift_z") if abs(abs(u[IX[b]]) - 0.5) < TIE_MARGIN)
+            else:
+                ties_exact = sum(1 for u in m["subs"] for b in ("shift_x", "shift_y", "shift_z") if abs(b2f(u[IX[b]])) == 0.5)
+                d["exact_half_ties"] = "some" if ties_exact else "none"
+            below += sum(1 for u in m["subs"] for a, b in (("x", "shift_x"), ("y", "shift_y"), ("z", "shift_z")) if b2f(u[IX[a]]) + b2f(u[IX[b]]) < -0.5)
     except Exception:
         pass
     d["near_tie_roundings_skipped"] = "some" if ties else "none"
+    d["coordinates_below_-0.5"] = "some" if below else "none"
     thetas = [b2f(r[IX["theta"]]) for r in case["rows"]]
     d["gimbal_parent"] = "yes" if any(t in (0.0, 180.0) for t in thetas) else "no"
     return d
 
 
 def sample_view(case):
-    return dict(symmetry=_symmetry_arg(case["sym"]), s=_f(case["s"]), n_parents=len(case["rows"]),
+    calls = _calls(case)
+    return dict(calls=[dict(symmetry=repr(_symmetry_arg(c["sym"])), s=_f(c["s"]), offset_passed_as=c.get("sform", "ndarray")) for c in calls],
+                n_parents=len(case["rows"]), parent_ids=[b2f(r[IX["subtomo_id"]]) for r in case["rows"]][:12],
                 first_parent=dict(zip(FIELDS, _f(case["rows"][0]))))
 
 
@@ -722,8 +1221,9 @@ def classify(case, obs, finding):
 
 
 def probes(rng):
-    """probe the recorded scipy assumptions on random angles (incl. gimbal lock)"""
+    """probe the recorded scipy / decimal assumptions on random angles (incl. gimbal lock) and on ties / near-ties"""
     from scipy.spatial.transform import Rotation as rot
+    import decimal
     out = []
     worst_m, worst_rt, worst_mul = 0.0, 0.0, 0.0
     with warnings.catch_warnings():
@@ -743,17 +1243,29 @@ def probes(rng):
     out.append(dict(name="scipy from_euler('zxz',degrees) = Rz(psi)Rx(theta)Rz(phi)", ok=worst_m <= 1e-12, detail=f"max dev {worst_m:.3g} over 300 triples"))
     out.append(dict(name="scipy Rotation `*` = matrix product, apply = matrix-vector", ok=worst_mul <= 1e-12, detail=f"max dev {worst_mul:.3g}"))
     out.append(dict(name="scipy as_euler('zxz') o from_euler reproduces the rotation (incl. gimbal lock)", ok=worst_rt <= 1e-9, detail=f"max dev {worst_rt:.3g}"))
+    xs = [0.5, -0.5, 1.5, -1.5, 2.5, -2.5, HALF_BELOW, -HALF_BELOW, 0.5000000000000001, -0.5000000000000001, 1.4999999999999998, 4503599627370495.5,
+          -4503599627370495.5, 9007199254740993.0, 0.0, -0.0, 1e-320, 123456.5, -123456.5] + [rng.uniform(-3000, 3000) for _ in range(40)] + [_dy(rng, -50, 50) for _ in range(40)]
+    try:
+        r = core.run_driver([dict(prop=PROP, op="round", xs=[f2b(x) for x in xs])])[0]
+        py = [int(decimal.Decimal(x).to_integral_value(rounding=decimal.ROUND_HALF_UP)) for x in xs]
+        ok = r.get("r") == py
+        det = f"{len(xs)} values incl. exact ties, 0.49999999999999994 and 2^52-0.5" if ok else f"first difference at {next((x for x, a, b in zip(xs, r.get('r') or [], py) if a != b), '?')!r}"
+    except Exception as e:
+        ok, det = False, f"{type(e).__name__}: {e}"
+    out.append(dict(name="Decimal(float).to_integral_value(ROUND_HALF_UP) = Lean ratRound on the exact value", ok=ok, detail=det))
     return out
 
 
 LEVEL_TEXT = ("Lean 4 theorems about an executable model of Motl.split_in_asymmetric_subunits (cyclic branch) + update_coordinates, for every n>=1, "
-              "every particle list and every offset: count n*N, outputs are exactly the (parent,k) pairs, ids 1..n*N unique, geom5/geom2 bookkeeping, "
+              "every particle list (parent ids may repeat) and every offset: count n*N, outputs are exactly the (parent,k) pairs, output n*i+k is subunit k of the i-th "
+              "parent in stable id order, ids 1..n*N unique, geom5/geom2 bookkeeping, "
               "orientation R*Rz(k*a), complete position = centre + orientation*s (so every subunit maps back to the centre), subunits related by rotations "
-              "about the parent's own z axis (conjugates R*Rz*R^T fixing R e_z), closure Rz(a)^n=1, integer x,y,z and |shift|<=1/2; over the reals the step "
-              "angle is 2*pi/n; the model is tied to the source by regenerated constants/field names/expression shapes and by a differential run of "
-              "the real function against the model on generated lists (every n in 1..64 in the thorough tier)")
+              "about the parent's own z axis (conjugates R*Rz*R^T fixing R e_z), closure Rz(a)^n=1, integer x,y,z and |shift|<=1/2 for any rounding to a nearest integer; "
+              "over the reals the step angle is 2*pi/n; the symmetry string is parsed in Lean (last run of digits; 'C'+str(n), blanks, zero padding proved to give n); "
+              "the model is tied to the source by regenerated constants/field names/expression shapes, a whole-body dump with alpha-renamed locals, and by a differential run of "
+              "the real function against the model on generated lists (every n in 1..64 in EVERY tier)")
 LEVEL_NOTE = ("trusted/modelled: Lean kernel; translator anchors; scipy Rotation (from_euler/as_euler/*/apply) and numpy trigonometry/polar form "
-              "(probed and compared with tolerance 1e-9, not proved); Decimal ROUND_HALF_UP = floor formula; pandas concat/sort/tile positional semantics; "
-              "parsing of 'Cn'/'cn' strings is validated by the correspondence only; parent ids assumed unique")
-TECHNIQUE = "Lean 4 proof (ring identities over any commutative ring, list induction, floor lemmas, real trigonometry for the step angle) + regenerated anchors + differential correspondence"
+              "(probed and compared with tolerance 1e-9, not proved); Decimal ROUND_HALF_UP on a float = exact rational rounding (probed each run); pandas iloc/argsort/repeat/tile "
+              "positional semantics (compared on every case); Python's \\d / int() on non-ASCII digits is outside the model")
+TECHNIQUE = "Lean 4 proof (ring identities over any commutative ring, list induction, stable merge sort, rational rounding, real trigonometry for the step angle, digit-string parsing) + regenerated anchors + differential correspondence"
 DESIGN_REF = "DESIGN.md section 4, C10"
